@@ -272,7 +272,8 @@ def durations(c: Ctx, rng, nrand: int, deterministic: bool) -> None:  # noqa: AN
             if a and m:
                 us = v // US
                 q, rem = divmod(us, 1000)
-                neighbours = {TD(milliseconds=q)} | ({TD(milliseconds=q + 1)} if rem else set())
+                # "after rounding to whole milliseconds": to the nearest one; an exact half may go either way
+                neighbours = {TD(milliseconds=q)} if rem < 500 else {TD(milliseconds=q + 1)} if rem > 500 else {TD(milliseconds=q), TD(milliseconds=q + 1)}
                 # rounding may step outside the type's range at the very edge; the writer then has to raise or clamp - not exercised
                 if rem and not (lo <= TD(milliseconds=q) and TD(milliseconds=q + 1) <= hi):
                     continue
